@@ -57,7 +57,18 @@ class HistoryGen(object):
             prev = r["job"]
 
     def choose_pool(self, rng):
-        return rng.sample(self.targets, min(len(self.targets), rng.randint(3, 6)))
+        """3-6 jobs.  Four histories in ten are built around a *group* of related jobs -- the same
+        YAML under other options / entry points, or libraries meant for the path-less programmatic
+        entry -- because related jobs share input files, names and registry keys."""
+        n = rng.randint(3, 6)
+        groups = getattr(self, "groups", None)
+        if groups and rng.random() < 0.4:
+            key = rng.choice(sorted(groups))
+            members = groups[key]
+            take = rng.sample(members, min(len(members), rng.randint(2, 4)))
+            rest = [j for j in self.targets if j not in take]
+            return take + rng.sample(rest, min(len(rest), max(0, n - len(take))))
+        return rng.sample(self.targets, min(len(self.targets), n))
 
     def pick(self, rng, pool, prev):
         if prev is not None and rng.random() < 0.6:
@@ -113,6 +124,8 @@ class HistoryGen(object):
 
     def run_op(self, rng, jid, entries):
         entry = rng.choice(entries)
+        if jid.startswith("apinp/") and rng.random() < 0.7:
+            entry = "api"  # these libraries exist for the path-less programmatic entry
         if entry == "api" and jid not in self.api_ok:
             entry = "cli"
         return {"op": "RUN", "job": jid, "entry": entry, "judge": True}
